@@ -54,6 +54,7 @@ def run(ctx: Ctx, env):
     if PRINTER not in repo.classes:
         raise AnalysisError("odata_query.roundtrip.AstToODataVisitor not found")
     H = heval.get(env)
+    H.__dict__.setdefault("text_visitors", set()).add(PRINTER)  # justified by R4.printer-returns-text below
     kf = env.kindflow
     om = opmap.get(env)
     g = env.grammar
@@ -85,6 +86,19 @@ def run(ctx: Ctx, env):
         w = {"Geography": "geo.intersects(a, geography'POINT(1 2)')", "NamedParam": "ns.f(x=1) eq 1"}.get(kind)
         ctx.check(has, "R4.printer-handles-kind", kind, f"the printer reaches {kind} (from {via} at {slot}) but has no visit_{kind}: None is "
                   "concatenated into the text (TypeError) or printed", rm.rel, w)
+    # every handler the printer can reach returns text on every path: a None, a number or an exception there is not a
+    # rendering (and the children of a handler may then be taken to be text when the handler combines them)
+    n_text = 0
+    for (pk, pd), tmpls in sorted(A.node_tmpls.items(), key=lambda kv: (kv[0][0], kv[0][1] or "")):
+        if pk not in seen or tmpls is None:
+            continue
+        for t in tmpls:
+            n_text += 1
+            ok = t.path.outcome == "return" and t.is_string
+            what = f"raises {getattr(t.path.value, 'cls', t.path.value)!s}" if t.path.outcome == "raise" else f"returns {t.path.value!r}"
+            ctx.check(ok, "R4.printer-returns-text", f"{pk}[{pd}]" if pd else pk,
+                      f"visit_{pk} {what} instead of text on a path the parser's trees take", t.where)
+    ctx.floor("printer handler paths returning text", n_text, 40)
     ctx.floor("kinds reachable by the printer", len(seen), 35)
 
     from .common import check_shared_caches
